@@ -11,6 +11,7 @@ import (
 	"path/filepath"
 	"sort"
 	"sync"
+	"time"
 
 	"github.com/btcsuite/btcd/btcutil/hdkeychain"
 	"github.com/btcsuite/btcd/chaincfg"
@@ -55,6 +56,7 @@ type LN struct {
 	LookScript map[string][]PayAnswer // by payment hash; consumed by OutgoingPaymentStatus; default: error
 	fireNow    string                 // payment hash whose next subscription delivers the settled invoice at once
 	created    []string               // payment hashes of the invoices created, in order
+	subCount   map[string]int         // subscriptions opened so far, by payment hash
 	InvoiceStatusErr bool
 	CreateInvoiceErr bool
 	PayCalls  []PayCall
@@ -72,7 +74,7 @@ type LN struct {
 func NewLN(rng *rand.Rand) *LN {
 	return &LN{invoices: map[string]*lnInvoice{}, byReq: map[string]*lnInvoice{}, rng: rng,
 		PayScript: map[string][]PayAnswer{}, LookScript: map[string][]PayAnswer{},
-		succeeded: map[string]bool{}, successPreimage: map[string]string{}, refused: map[string]bool{}, lastAnswer: map[string]int{},
+		subCount: map[string]int{}, succeeded: map[string]bool{}, successPreimage: map[string]string{}, refused: map[string]bool{}, lastAnswer: map[string]int{},
 		FeeFn: func(a uint64) uint64 { return (a + 99) / 100 }}
 }
 
@@ -260,6 +262,7 @@ func (s *lnSub) Recv() (lightning.Invoice, error) {
 func (l *LN) SubscribeInvoice(ctx context.Context, paymentHash string) (lightning.InvoiceSubscriptionClient, error) {
 	l.mu.Lock()
 	defer l.mu.Unlock()
+	l.subCount[paymentHash]++
 	return &lnSub{ctx: ctx, l: l, inv: l.invoices[paymentHash], fire: l.fireNow != "" && l.fireNow == paymentHash}, nil
 }
 
@@ -395,3 +398,18 @@ func sortedKeys[V any](m map[string]V) []string {
 }
 
 var _ = filepath.Join
+
+// WaitSubscribed waits until the mint's own background watcher for the invoice has opened its subscription.
+// (RequestMintQuote starts it in a goroutine; it must not pick up a later "deliver at once" instruction that is
+// meant for a watcher run the harness schedules explicitly.)
+func (l *LN) WaitSubscribed(hash string) {
+	for i := 0; i < 2000; i++ {
+		l.mu.Lock()
+		n := l.subCount[hash]
+		l.mu.Unlock()
+		if n > 0 {
+			return
+		}
+		time.Sleep(time.Millisecond)
+	}
+}
